@@ -23,6 +23,7 @@ import DtailModel.Model.KnownHosts
 import DtailModel.Model.Perm
 import DtailModel.Model.Aggregate
 import DtailModel.Model.Outfile
+import DtailModel.Model.Result
 import DtailModel.Model.Limiter
 import DtailModel.Model.Conn
 import DtailModel.Model.Multi
@@ -619,6 +620,16 @@ def dumpGroups (g : Groups) : String :=
     let cols := s.cols.map fun c => s!"{c.num.getD 0}|{hexOf (c.str.getD [])}"
     s!"{hexOf k}:{s.samples}:{joinWith "," cols}")
 
+def rowEntry (r : Row) : String × String := (hexOf (fmtRat r.orderBy), joinWith "," (r.cells.map hexOf))
+
+/-- rows with the same rendered order key in text order (the choice among tied rows is free; so is the whole
+    order when the query has no ordering clause: Go ranges over a map) -/
+def canonRows (ordered : Bool) (es : List (String × String)) : String :=
+  let strs (l : List (String × String)) : List String := l.map fun (k, c) => k ++ "|" ++ c
+  let sortS (l : List String) : List String := (l.toArray.qsort (· < ·)).toList
+  if !ordered then "U:" ++ joinWith ";" (sortS (strs es))
+  else "O:" ++ joinWith ";" ((es.splitBy (fun a b => a.1 == b.1)).flatMap fun run => sortS (strs run))
+
 def opC05AggCore (qh format servers : String) : Res :=
   match unhex qh, parseServers servers with
     | some qs, some svs =>
@@ -636,12 +647,16 @@ def opC05AggCore (qh format servers : String) : Res :=
         let d := distributed q.sel q.groupBy partials
         let c := central q.sel q.groupBy partials.flatten
         let ops := (q.sel.map (·.op)).eraseDups
-        { m := dumpGroups d, s := dumpGroups c,
+        -- the ordered rows of the final report (internal/mapr/groupset.go result()); limit: c15.write
+        let rowsOf (g : Groups) : String := canonRows (q.orderBy != []) ((orderRows q (g.map (rowOf q))).map rowEntry)
+        { m := dumpGroups d ++ "@rows=" ++ rowsOf d, s := dumpGroups c ++ "@rows=" ++ rowsOf c,
           t := joinWith "," ((if partials.length > 1 then ["multi-part"] else []) ++ (if d.length > 1 then ["multi-group"] else [])
             ++ (if !q.whr.isEmpty then ["where"] else []) ++ (if !q.set.isEmpty then ["set"] else [])
             ++ (if ops.contains .min ∨ ops.contains .max then ["minmax"] else []) ++ (if ops.contains .avg then ["avg"] else [])
             ++ (if ops.contains .last ∨ ops.contains .len then ["lastlen"] else [])
-            ++ (if partials.any (·.isEmpty) then ["empty-part"] else [])) }
+            ++ (if partials.any (·.isEmpty) then ["empty-part"] else [])
+            ++ (if q.orderBy != [] ∧ d.length > 1 then ["ordered"] else [])
+            ++ (if q.orderBy != [] ∧ ((d.map (rowOf q)).map (·.orderBy)).eraseDups.length < d.length then ["tied-rows"] else [])) }
       | _ => { m := "query-error" }
     | _, _ => bad
 
@@ -677,32 +692,21 @@ def parseGroups (s : String) : Option (List GroupSpec) :=
       pure ⟨k, n, cols⟩
     | _ => none
 
-/-- `resultSelect` on integer-valued aggregates (avg is not generated) -/
-def renderValue (op : AggOp) (g : GroupSpec) (storage : Bytes) : Bytes × Int :=
-  let col := (g.cols.find? (·.1 == storage)).map (·.2)
-  let f : Int := (col.bind (·.1)).getD 0
-  let sv : Bytes := (col.bind (·.2)).getD []
-  match op with
-  | .count => (str (toString f), f)
-  | .last => (sv, ((atoi sv).getD 0))
-  | _ => (fmtF f, f)
-
-def insertSorted (desc : Bool) (x : Int × List Bytes) : List (Int × List Bytes) → List (Int × List Bytes)
-  | [] => [x]
-  | y :: rest => if (if desc then x.1 > y.1 else x.1 < y.1) then x :: y :: rest else y :: insertSorted desc x rest
+/-- a group as the case line gives it, as a group of the model: one column per select condition -/
+def groupOfSpec (q : Query) (g : GroupSpec) : Bytes × AggSet :=
+  (g.key, { samples := g.samples, cols := q.sel.map fun sc =>
+    match g.cols.find? (·.1 == sc.storage) with
+    | some (_, f, sv) => { num := f, str := sv }
+    | none => {} })
 
 def outReqOf (q : Query) (raw : Bytes) (groups : List GroupSpec) (final : Bool) : Option OutReq :=
   match q.outfile with
   | none => none
   | some (path, app) =>
-    let rows := groups.map fun g =>
-      let vals := q.sel.map fun sc => renderValue sc.op g sc.storage
-      let key : Int := ((q.sel.zip vals).find? (fun p => p.1.storage == q.orderBy)).map (·.2.2) |>.getD 0
-      (key, vals.map (·.1))
-    -- stable sort by the order key (descending for `order`, ascending for `rorder`); keys are distinct in generated cases
-    let rows := if q.orderBy = [] then rows else rows.foldr (insertSorted (!q.reverse)) []
+    -- the model's report (Model/Result.lean): rows rendered and ordered; `limitedRows` applies the limit
+    let rows := orderRows q ((groups.map (groupOfSpec q)).map (rowOf q))
     some { path := path, append := app, rawQuery := raw, header := q.sel.map (·.storage),
-           rows := rows.map (·.2), limit := q.limit, final := final }
+           rows := rows.map (·.cells), limit := q.limit, final := final }
 
 def relName (path p : Bytes) : Bytes :=
   -- paths are reported relative to the outfile's directory
